@@ -85,6 +85,61 @@ def tie_quote(ctx: Ctx, drv: Driver, n: int) -> None:
     ctx.cov["qblock_documents_compared"] = len(lines)
 
 
+LLINES = ["- a", "* b", "+ c", "-", "- ", "-   d", "-     e", "-\tf", "1. g", "1) h", "10. i", "007. j", "1234567890. k", "123456789. l", "2.", "2. ", "3.x", "-x",
+          "  - m", "    - n", "   1. o", "  cont", "    cont4", "      cont6", "\tcont", "", "", "para", "> - q", "- > r", "- # s", "- ***", "* * *", "- ```", "```",
+          "1. 2. t", "- - u", "-  \tv", " 1.  w", "- a\n\n  b", "٣. x", "1.\ty", "  ", "-\n  z", "9) ", "- [r]: /u"]
+
+
+def rand_l(rng) -> str:
+    n = rng.randint(1, 10)
+    pool = LLINES if rng.random() < 0.6 else LLINES + QLINES + LINES
+    return "\n".join(rng.choice(pool) for _ in range(n)) + rng.choice(TAILS)
+
+
+def tie_list(ctx: Ctx, drv: Driver, n: int) -> None:
+    """the tie with block quotes and lists in the chain (driver `lblock`)"""
+    from markdown_it import MarkdownIt
+
+    rng = ctx.rng
+    mds = {}
+    lines, impl, meta = [], [], []
+    fixed = ["- a\n- b\n", "1. a\n\n   b\n2. c\n", "-\n\n  foo\n", "- a\n  - b\n    - c\n  - d\n", "- a\n\n- b\n", "1. x\n3) y\n", "- > q\n  > r\n- s\n",
+             "> - a\n> - b\nlazy\n", "para\n2. x\n", "para\n1. x\n", "para\n-\n", "- a\n***\n- b\n", "   - a\n    - b\n     - c\n      - d\n"]
+    for i in range(n):
+        k = i % 5
+        if i < len(fixed):
+            src = fixed[i]
+        else:
+            src = rand_l(rng) if k < 3 else (gens.struct_doc(rng, 2) if k == 3 else next(gens.doc_stream(rng, 1, 6)))
+        bits = rng.randrange(16) if i % 3 else 15
+        mn = rng.choice([100, 100, 100, 20, 1, 0, 2, 3, 4])
+        key = (bits, mn)
+        if key not in mds:
+            md = MarkdownIt("zero", {"maxNesting": mn})
+            md.enable(["blockquote", "list"] + [NAMES[j] for j in range(4) if bits >> (3 - j) & 1])
+            mds[key] = md
+        md = mds[key]
+        try:
+            toks = md.parse(src)
+            out = "ok " + " ".join(enc_block_tok(t) for t in toks)
+        except Exception as e:  # noqa: BLE001
+            out = "e:" + type(e).__name__
+        lines.append(f"lblock {bits:04b} {mn} {enc(src)}")
+        impl.append(out.strip())
+        meta.append((src, bits, mn))
+    got = drv.batch(lines)
+    bad = 0
+    for ln, a, b, m in zip(lines, impl, got, meta):
+        ctx.corr_compared += 1
+        if a != b.strip():
+            bad += 1
+            if bad <= 5:
+                ctx.mismatch("block sub-parser with block quotes and lists: implementation and model differ",
+                             {"input": m[0], "enabled": ["blockquote", "list"] + [NAMES[j] for j in range(4) if m[1] >> (3 - j) & 1], "maxNesting": m[2],
+                              "impl": a[:800], "model": b.strip()[:800], "request": ln[:400]})
+    ctx.cov["lblock_documents_compared"] = len(lines)
+
+
 def tie(ctx: Ctx, drv: Driver, n: int) -> None:
     from markdown_it import MarkdownIt
 
@@ -123,3 +178,10 @@ def tie(ctx: Ctx, drv: Driver, n: int) -> None:
                              {"input": m[0], "enabled": [NAMES[j] for j in range(4) if m[1] >> (3 - j) & 1], "maxNesting": m[2],
                               "impl": a[:600], "model": b.strip()[:600], "request": ln[:400]})
     ctx.cov["miniblock_documents_compared"] = len(lines)
+
+
+def tie_all(ctx: Ctx, drv: Driver, quick: bool) -> None:
+    """all three ties: leaf rules, + block quotes, + lists"""
+    tie(ctx, drv, 2000 if quick else 50000)
+    tie_quote(ctx, drv, 2500 if quick else 60000)
+    tie_list(ctx, drv, 3500 if quick else 100000)
